@@ -369,7 +369,7 @@ func genC19(tier string, seed int64) (*Family, error) {
 		Cfg: interp.Config{MaxSteps: 8_000_000,
 			TrackFields: []string{"engine.Gengine.returnResult", "engine.GenginePool.freeGengines", "engine.GenginePool.additionGengines", "engine.GenginePool.ruleBuilder", "engine.GenginePool.execModel", "engine.GenginePool.clear",
 				"engine.gengineWrapper.rulebuilder", "builder.RuleBuilder.Kc", "base.KnowledgeContext.RuleEntities", "base.KnowledgeContext.SortRules", "base.KnowledgeContext.SortRulesIndexMap", "context.DataContext.base"},
-			TrackAllocs: []string{"eMsg"}, TrackMakeMaps: []string{"base.RuleEntity).Execute"}, TrackStructsOf: []string{"base"}},
+			TrackAllocs: []string{"*"}, TrackMakeMaps: []string{"base.RuleEntity).Execute"}, TrackStructsOf: []string{"base"}},
 		Functions: []string{"engine.GenginePool).getGengine", "engine.GenginePool).putGengineLocked", "engine.Gengine).addResult", "DataContext).Add", "DataContext).Del"},
 	}
 	fam.Assumptions = []string{
@@ -381,6 +381,50 @@ func genC19(tier string, seed int64) (*Family, error) {
 	var b strings.Builder
 	b.WriteString(c16LibRunOn)
 	b.WriteString(c07Lib)
+	// staged models over three rules with a symbolic error policy, two calls on one engine: a rule
+	// goroutine that outlives the call would touch the map the caller holds or the next call's map
+	n3 := namesLit(3)
+	for _, m := range []struct{ id, call string }{
+		{"NSortMConc_1_2", "eng.ExecuteNSortMConcurrent(1, 2, rb, pol)"},
+		{"NConcMSort_2_1", "eng.ExecuteNConcurrentMSort(2, 1, rb, pol)"},
+		{"NConcMConc_2_1", "eng.ExecuteNConcurrentMConcurrent(2, 1, rb, pol)"},
+		{"NConcMConc_1_2", "eng.ExecuteNConcurrentMConcurrent(1, 2, rb, pol)"},
+		{"SelNSortMConc_1_2", "eng.ExecuteSelectedNSortMConcurrent(1, 2, rb, pol, " + n3 + ")"},
+		{"SelNConcMSort_2_1", "eng.ExecuteSelectedNConcurrentMSort(2, 1, rb, pol, " + n3 + ")"},
+		{"SelNConcMConc_2_1", "eng.ExecuteSelectedNConcurrentMConcurrent(2, 1, rb, pol, " + n3 + ")"},
+	} {
+		name := "E2_" + m.id
+		fmt.Fprintf(&b, `
+// %s with a symbolic policy and failing subset, twice on one engine
+func %s() {
+	n := 3
+	f := symFlags("f", n)
+	g := symFlags("g", n)
+	pol := vnd.Bool("pol")
+	dc := newDC(f)
+	addFlags(dc, "g", g)
+	addVals(dc, "v", []int64{1, 2, 3})
+	rb := buildTextPlain(dc, rulesTextOpt(n, fixedSal(n), "g"))
+	eng := NewGengine()
+	err := %s
+	_ = err
+	res, _ := eng.GetRulesResultMap()
+	k := 0
+	for range res {
+		k++
+	}
+	addFlags(dc, "f", allFalse(n))
+	err = %s
+	res2, _ := eng.GetRulesResultMap()
+	for range res2 {
+		k++
+	}
+	vnd.Reach("executed")
+	vnd.NoRaces("")
+}
+`, m.id, name, m.call, m.call)
+		fam.Instances = append(fam.Instances, Instance{Func: name, Stratum: "engine-staged", Desc: m.id + " twice with a symbolic policy", Expect: []string{"executed"}})
+	}
 	// engine-level: every model with goroutines
 	for _, m := range engineModels() {
 		if !m.conc {
@@ -505,6 +549,53 @@ func P_three_requests() {
 	fam.Instances = append(fam.Instances, Instance{Func: "P_shared_rule_set", Stratum: "pool/requests", Desc: "two requests executing one rule with every construct kind", Expect: []string{"executed"}, Nondet: true})
 	fam.Instances = append(fam.Instances, Instance{Func: "P_two_requests", Stratum: "pool/requests", Desc: "two concurrent pool requests", Expect: []string{"executed"}},
 		Instance{Func: "P_three_requests", Stratum: "pool/requests", Desc: "three pool requests with hand-back", Expect: []string{"executed"}})
+	// a failed request, then two overlapping ones: whatever the failure path did to the pool's
+	// bookkeeping shows up as two requests on one engine
+	b.WriteString(`
+const zzFailText = "rule \"a\" salience 9\nbegin\n ev(\"a.s\")\n x = req\n ev(\"a.e\")\n return x\nend\nrule \"b\" salience 5\nbegin\n ev(\"b.s\")\n if fail {\n  y = one / zero\n }\n ev(\"b.e\")\n return resp\nend\n"
+`)
+	for _, pc := range poolCalls() {
+		name := "PF_" + pc.name
+		fmt.Fprintf(&b, `
+// %s with a failing rule, then two overlapping requests
+func %s() {
+	apis := zzApis()
+	apis["one"], apis["zero"], apis["fail"] = int64(1), int64(0), false
+	gp, e := NewGenginePool(1, 2, SortModel, zzFailText, apis)
+	zzMust(e, "pool construction")
+	names := []string{"a", "b"}
+	stag := &Stag{}
+	_, _ = names, stag
+	pol := vnd.Bool("pol")
+	_ = pol
+	data := map[string]interface{}{"req": int64(1), "resp": int64(5), "fail": true}
+	_, _ = %s
+	vnd.Quiesce()
+	var gate sync.Mutex
+	gate.Lock()
+	var wg sync.WaitGroup
+	wg.Add(1)
+	go func() {
+		defer wg.Done()
+		gp.ExecuteSelectedRules(map[string]interface{}{"req": int64(2), "resp": int64(1), "ev": func(s string) {
+			vnd.Event("one:" + s)
+			if s == "a.s" {
+				gate.Lock() // blocks until the host lets go
+				gate.Unlock()
+			}
+		}}, []string{"a"})
+	}()
+	vnd.Quiesce() // the first request is now blocked inside rule a, holding an instance
+	gp.ExecuteSelectedRules(map[string]interface{}{"req": int64(3), "resp": int64(2)}, []string{"a"})
+	gate.Unlock()
+	wg.Wait()
+	vnd.Quiesce()
+	vnd.Reach("executed")
+	vnd.NoRaces("")
+}
+`, pc.name, name, strings.ReplaceAll(strings.ReplaceAll(pc.call, ", true, ", ", pol, "), "data, true)", "data, pol)"))
+		fam.Instances = append(fam.Instances, Instance{Func: name, Stratum: "pool/after-failure", Desc: pc.name + " fails, then two overlapping requests", Expect: []string{"executed"}, Nondet: true})
+	}
 	for ui, u := range []string{"full", "fullset", "incr", "incradd", "remove", "clear"} {
 		for _, m := range []poolCall{{"Execute", "gp.Execute(data, true)", 0}, {"ExecuteNSortMConcurrent", "gp.ExecuteNSortMConcurrent(1, 1, true, data)", 0}, {"ExecuteDAGModel", "gp.ExecuteDAGModel([][]string{{\"a\"}, {\"b\"}}, data)", 0}, {"ExecuteRulesWithMultiInputWithSpecifiedEM", "gp.ExecuteRulesWithMultiInputWithSpecifiedEM(data)", 0}} {
 			if tier != "thorough" && m.name != "Execute" && !(u == "full" || u == "incr" || u == "clear") {
